@@ -75,7 +75,7 @@ def C06(tier, seed):
 
 
 def C08(tier, seed):
-    return hist_plan(["C08"], tier, seed, tokens=("spl", "t22"), must={"increase_liquidity": 20, "decrease_liquidity": 20, "increase_liquidity_v2": 20, "decrease_liquidity_v2": 20},
+    return hist_plan(["C08"], tier, seed, tokens=("spl", "t22"), must={"increase_liquidity": 20, "decrease_liquidity": 20, "increase_liquidity_v2": 20, "decrease_liquidity_v2": 20, "increase_liquidity_by_token_amounts_v2": 10, "reposition_liquidity_v2": 3},
                      explanation="user/vault deltas of every increase/decrease equal the exact TokenDeltas rounded up/down")
 
 
@@ -244,7 +244,7 @@ def C16(tier, seed):
     drivers = hist_jobs("hist_t22fee_", seed, 5 if tier == "quick" else 16, 4 if tier == "quick" else 40, 200 if tier == "quick" else 300, "t22fee")
     drivers += fn_jobs("tfee", tier, seed, 400, 8000, shards_q=2, shards_t=8)
     return {"active": ["C16"], "drivers": drivers, "models": [mc("MC_TransferFee", tier, "MC_TransferFee")],
-            "must_exercise": {"swap_v2": 50, "increase_liquidity_v2": 20, "decrease_liquidity_v2": 20},
+            "must_exercise": {"swap_v2": 50, "increase_liquidity_v2": 20, "decrease_liquidity_v2": 20, "increase_liquidity_by_token_amounts_v2": 10, "reposition_liquidity_v2": 3},
             "explanation": "ExclOK/InclOK (smallest fee-included amount, fee adds back, 100% case, epoch selection) on the Anchor and Pinocchio functions over a boundary grid; histories on Token-2022 "
                            "pools with transfer fees where the real Token-2022 processor moves the tokens: vault receives >= curve amount, pays exactly the curve output, requests are the smallest "
                            "fee-included amounts, thresholds/maxima/minima apply to what the user actually pays/receives, event fields equal the amounts moved; toy domain: existence/uniqueness/monotonicity"}
